@@ -8,6 +8,7 @@ import AfkakProofs.Producer.Dispatch
 import AfkakProofs.Producer.Wait
 import AfkakProofs.Producer.ReentrantExt
 import AfkakProofs.Producer.ReentrantTail
+import AfkakProofs.Producer.AfterStop
 /-!
 # C19 — Batching thresholds, time limit and cancellation behave as documented
 Property theorems only.  Model: `Afkak/Producer.lean`; monitors: `Afkak/Monitor/C19.lean`.
@@ -22,12 +23,16 @@ theorem C19_accounting (cfg : Cfg) (evs : List Ev) : accounting cfg (traceOf cfg
   accounting_model cfg evs
 
 /-- Dispatch exactly when it should — trace level, for EVERY event list: (i) after every step the producer
-    is never idle (`_batch_send_d is None`), not stopped, with a non-empty queue whose message count or
-    byte count is over its (non-zero) threshold - a threshold met while a batch is in flight takes effect
-    in the very step that resolves the batch; (ii) whenever a step takes the queue other than by the
-    periodic tick, a threshold was met on the queue as it stood at that check (including the send just
-    made, without the send just cancelled); (iii) a tick of the running looping call with no batch in
-    flight, not stopped, takes a non-empty queue; (iv) the queue is never taken once stopped. -/
+    is never idle (`_batch_send_d is None`) with a non-empty queue whose message count or byte count is over its
+    (non-zero) threshold - stopped or not (once stopped the queue is empty) - a threshold met while a batch is
+    in flight takes effect in the very step that resolves the batch; (ii) whenever a step takes the queue other
+    than by the periodic tick, a threshold was met on the queue as it stood at that check (including the send
+    just made, without the send just cancelled); (iii) a tick of the running looping call with no batch in
+    flight takes a non-empty queue; (iv) the queue is never taken once stopped; (v) the queue is taken ONLY WHEN
+    NO BATCH IS IN FLIGHT: nothing was in flight before the step, or the step takes the client's answer to the
+    request in flight (unanswered before, answered after), or the step is a look-up answer (metadata result,
+    back-off timer) for a batch none of whose requests is unanswered - a dispatch while a produce request is
+    out and stays out is rejected. -/
 theorem C19_dispatch_iff (cfg : Cfg) (evs : List Ev) : dispatchIff cfg (traceOf cfg evs) = true :=
   dispatchIff_model cfg evs
 
@@ -84,10 +89,29 @@ theorem C19_cancel_later_detaches (cfg : Cfg) (evs : List Ev) : detach cfg (trac
     empty; if the client's answer to the cancel of the in-flight produce request is one of its cancel
     outcomes (still pending, failed payloads, a KafkaError, CancelledError) every Deferred fired in
     `stop()` failed with a CANCELLATION error - or truthfully succeeded with the acknowledgement that
-    answer still carried (C01 checks those); and nothing is transmitted (no produce request, no metadata
-    request) in `stop()` or in any later step. -/
+    answer still carried (C01 checks those); nothing is transmitted (no produce request, no metadata
+    request) in `stop()` or in any later step; after `stop()` and after EVERY later step nothing is outstanding
+    and nothing is queued; and a `send_messages` made after it fires its Deferred at once, with
+    `CancelledError(request_sent=False)`, and nothing else happens.  The two conditions in the monitor are on the
+    ENVIRONMENT (see its docstring): the client's answer to the cancel names only payloads of the request (C07;
+    else the model takes no step), and the cancellation KINDS are promised for the real client's cancel outcomes. -/
 theorem C19_stop (cfg : Cfg) (evs : List Ev) : Afkak.Monitor.C19.stop cfg (traceOf cfg evs) = true :=
   stop_model cfg evs
+
+/-- Once `stop()` has begun — in EVERY reachable state: nothing is outstanding and nothing is queued. -/
+theorem C19_stopped_nothing_pending (cfg : Cfg) (evs : List Ev)
+    (hs : (run cfg (St.init cfg) evs).1.stopping = true) :
+    (run cfg (St.init cfg) evs).1.outstanding = [] ∧ (run cfg (St.init cfg) evs).1.queue = [] :=
+  reach_stopped_empty (reach_run cfg evs _ (reach_init cfg)) hs
+
+/-- … and a `send_messages` (with messages) made then is refused at once: its Deferred fires with
+    `CancelledError(request_sent=False)` in the call; it is not queued and not outstanding; nothing else changes
+    (F29: it used to be queued for ever). -/
+theorem C19_send_after_stop_refused (cfg : Cfg) (st : St) (topic : Topic) (key : Option (List UInt8))
+    (msgs : List (Option Nat)) (hs : st.stopping = true) (hm : msgs ≠ []) :
+    step cfg st (.send st.nextSid topic key msgs) =
+      ({ st with nextSid := st.nextSid + 1 }, [.fire st.nextSid (.err (.acancelled (some false)))]) :=
+  send_after_stop cfg st topic key msgs hs hm
 
 /-- … as a state invariant (what the trace monitor reads off the snapshots). -/
 theorem C19_accounting_state (cfg : Cfg) (evs : List Ev) :
@@ -154,11 +178,11 @@ def exCfg2 : Cfg := Cfg.ofArgs 1 5 (1/4) false 1 1 none false
 def exEvs2 : List Ev := [.metaSet 0 0 (some [0, 1]), .send 0 0 none [some 10]]
 /- a queued send is cancelled; the batch later goes out without it -/
 example : (run exCfg (St.init exCfg) [.metaSet 0 0 (some [0]), .send 0 0 none [some 3], .send 1 0 none [some 4], .cancel 0, .tick]).2
-    = [.fire 0 (.err (.acancelled (some false))), .produce 0 [⟨⟨0, 0⟩, [1]⟩]] := by decide +kernel
+    = [.fire 0 (.err (.acancelled (some false))), .produce 0 [⟨⟨0, 0⟩, [1], [⟨none, some 4⟩]⟩]] := by decide +kernel
 example : stopValid (run exCfg2 (St.init exCfg2) exEvs2).1 (some (.failed [] [⟨⟨0, 0⟩, .tcancelled, true⟩])) = true := by
   decide +kernel
 example : (run exCfg2 (St.init exCfg2) (exEvs2 ++ [.stop true (some (.failed [] [⟨⟨0, 0⟩, .tcancelled, true⟩])) [], .timer 0, .tick])).2
-    = [.produce 0 [⟨⟨0, 0⟩, [0]⟩], .cancelReq 0, .fire 0 (.err (.acancelled (some false))), .badOp, .badOp] := by
+    = [.produce 0 [⟨⟨0, 0⟩, [0], [⟨none, some 10⟩]⟩], .cancelReq 0, .fire 0 (.err (.acancelled (some false))), .badOp, .badOp] := by
   decide +kernel
 example : ((traceOf exCfg [.send 0 0 none [some 3, none], .send 1 1 none [some 5], .cancel 0]).map
     (fun s => (s.post.queue, s.post.msgCount, s.post.byteCount))) = [([0], 2, 3), ([0, 1], 3, 8), ([1], 1, 5)] := by
@@ -244,6 +268,8 @@ C19_outstanding_nodup
 C19_cancel
 C19_cancel_later_detaches
 C19_stop
+C19_stopped_nothing_pending
+C19_send_after_stop_refused
 C19_dispatch_iff
 C19_wait_bound
 C19_wait_bound_clock
